@@ -226,7 +226,7 @@ func main() {
 	sum := Summary{NMismatch: map[string]int{}, Known: map[string]int{}, KnownIDs: map[string]string{}}
 	add := func(m Mismatch) {
 		sum.NMismatch[m.Kind]++
-		if len(sum.Mismatches) < 40 {
+		if sum.NMismatch[m.Kind] <= 40 { // per kind: a flood of one kind (judged by another property) must not hide the others
 			sum.Mismatches = append(sum.Mismatches, m)
 		}
 	}
